@@ -24,6 +24,8 @@ func runC07(c *an.Ctx) string {
 	r075Body(c)
 	r077AbsoluteAndMemo(c)
 	r079ScopeLists(c)
+	r0710PathKeys(c, "R07.10")
+	r0711ParamSchemas(c, "R07.11")
 	r078RequiredKeys(c, "R07.8", []string{"expr", "http/codegen", "http/codegen/openapi", "http/codegen/openapi/v2", "http/codegen/openapi/v3"})
 	return explanationC07
 }
@@ -498,4 +500,178 @@ func r079ScopeLists(c *an.Ctx) {
 		}
 	}
 	c.Floor(rule, n, 3, "scope lists stored into security requirements")
+}
+
+// r0710PathKeys (R07.10): goa writes wildcards as /{*name}; OpenAPI has no such syntax, so every path key of either
+// document is the request path with each wildcard rewritten to /{name} (HTTPWildcardRegex.ReplaceAllString(key,
+// "/{$1}")). Endpoints and file servers, OpenAPI 2 and 3 are four sibling sites that must agree: at each store into
+// the paths table the key was assigned from that rewrite on every path to the store (CFG dominance).
+func r0710PathKeys(c *an.Ctx, rule string) {
+	sites := 0
+	for _, dir := range []string{"http/codegen/openapi/v2", "http/codegen/openapi/v3"} {
+		for _, f := range c.AllFuncs(dir) {
+			info := f.Pkg.TypesInfo
+			var g *an.CFG
+			ast.Inspect(f.Decl.Body, func(n ast.Node) bool {
+				as, ok := n.(*ast.AssignStmt)
+				if !ok {
+					return true
+				}
+				for _, l := range as.Lhs {
+					ix, ok := an.Unparen(l).(*ast.IndexExpr)
+					if !ok {
+						continue
+					}
+					tv, ok := info.Types[ix.X]
+					if !ok {
+						continue
+					}
+					mt, ok := tv.Type.Underlying().(*types.Map)
+					if !ok {
+						continue
+					}
+					// the paths table: map[string]*PathItem (v3) or the Paths field of the v2 document
+					isPaths := strings.HasSuffix(mt.Elem().String(), ".PathItem")
+					if se, ok := an.Unparen(ix.X).(*ast.SelectorExpr); ok && se.Sel.Name == "Paths" {
+						isPaths = true
+					}
+					if !isPaths {
+						continue
+					}
+					sites++
+					construct := fmt.Sprintf("%s#store(%s)", c.RefName(f), types.ExprString(ix.X))
+					// the innermost loop around the store tells endpoints and file servers apart
+					var inner *ast.RangeStmt
+					ast.Inspect(f.Decl.Body, func(m ast.Node) bool {
+						if r, ok := m.(*ast.RangeStmt); ok && r.Pos() <= as.Pos() && as.End() <= r.End() {
+							inner = r
+						}
+						return true
+					})
+					if inner != nil {
+						construct += "@range(" + an.CanonExpr(info, f.Decl, inner.X, nil) + ")"
+					}
+					kid, ok := an.Unparen(ix.Index).(*ast.Ident)
+					if !ok {
+						c.Undecidedf(rule, construct, as.Pos(), "the path key %s is not a variable", types.ExprString(ix.Index))
+						continue
+					}
+					ko := an.ObjOf(info, kid)
+					// entries copied from another table under their own key (the x- extensions of a service) are not
+					// path items built from a request path
+					copied := false
+					ast.Inspect(f.Decl.Body, func(m ast.Node) bool {
+						if r, ok := m.(*ast.RangeStmt); ok && r.Key != nil && an.ObjOf(info, r.Key) == ko {
+							if _, isMap := info.Types[r.X].Type.Underlying().(*types.Map); isMap {
+								copied = true
+							}
+						}
+						return true
+					})
+					if copied {
+						sites--
+						continue
+					}
+					if g == nil {
+						g = an.NewCFG(info, f.Decl.Body)
+					}
+					rewritten := keyRewrittenAt(c, f, g, kid, as, 0)
+					if rewritten {
+						c.Okf(rule, construct, "the key is the request path with wildcards rewritten to {name}")
+					} else {
+						c.Failf(rule, construct, as.Pos(), "the path item is stored under %s, which is not the result of HTTPWildcardRegex.ReplaceAllString on every path to the store: a request path with a wildcard keeps goa's /{*name} syntax in the document, which OpenAPI does not know (its sibling builders rewrite it to /{name})", kid.Name)
+					}
+				}
+				return true
+			})
+		}
+	}
+	c.Floor(rule, sites, 4, "stores into the paths table of the OpenAPI documents")
+}
+
+// keyRewrittenAt reports whether the variable key holds, at statement at of f, a request path whose wildcards were
+// rewritten: an assignment key = HTTPWildcardRegex.ReplaceAllString(…) dominates at, or - when f is a helper
+// introduced since the reference tree and key is one of its parameters - every caller passes such a variable.
+func keyRewrittenAt(c *an.Ctx, f *an.Func, g *an.CFG, kid *ast.Ident, at ast.Node, depth int) bool {
+	info := f.Pkg.TypesInfo
+	ko := an.ObjOf(info, kid)
+	if g == nil {
+		g = an.NewCFG(info, f.Decl.Body)
+	}
+	atLoc, okS := g.LocOf(at)
+	rewritten := false
+	ast.Inspect(f.Decl.Body, func(m ast.Node) bool {
+		a2, ok := m.(*ast.AssignStmt)
+		if !ok || len(a2.Lhs) != 1 || len(a2.Rhs) != 1 {
+			return true
+		}
+		id, ok := a2.Lhs[0].(*ast.Ident)
+		if !ok || an.ObjOf(info, id) != ko {
+			return true
+		}
+		call, ok := an.Unparen(a2.Rhs[0]).(*ast.CallExpr)
+		if !ok || !strings.HasSuffix(an.CalleeName(info, call), "Regexp).ReplaceAllString") {
+			return true
+		}
+		se, ok := an.Unparen(call.Fun).(*ast.SelectorExpr)
+		if !ok {
+			return true
+		}
+		if v, _ := an.ObjOf(info, selName(se.X)).(*types.Var); v == nil || an.CanonGlobalName(v) != "HTTPWildcardRegex" {
+			return true
+		}
+		if loc, ok := g.LocOf(a2); ok && okS && g.LocDominates(loc, atLoc) {
+			rewritten = true
+		}
+		return true
+	})
+	if rewritten || depth >= 2 || !c.IsNewFunc(f) {
+		return rewritten
+	}
+	pi := paramIndex(f, kid)
+	if pi < 0 {
+		return false
+	}
+	callers := c.CallersOf(f)
+	if len(callers) == 0 {
+		return false
+	}
+	for _, cs := range callers {
+		if pi >= len(cs.Call.Args) {
+			return false
+		}
+		aid, ok := an.Unparen(cs.Call.Args[pi]).(*ast.Ident)
+		if !ok || !keyRewrittenAt(c, cs.In, nil, aid, cs.Call, depth+1) {
+			return false
+		}
+	}
+	return true
+}
+
+// r0711ParamSchemas (R07.11): an OpenAPI 3 parameter object must have exactly one of schema and content. Every
+// Parameter literal of the OpenAPI 3 builder sets one of them.
+func r0711ParamSchemas(c *an.Ctx, rule string) {
+	sites := 0
+	for _, f := range c.AllFuncs("http/codegen/openapi/v3") {
+		for _, cl := range compositeLits(f, an.P("http/codegen/openapi/v3")+".Parameter") {
+			fields := litFields(cl)
+			if len(fields) == 0 {
+				continue // zero value or positional: not a parameter being described
+			}
+			sites++
+			name := "?"
+			if e, ok := fields["Name"]; ok {
+				name = types.ExprString(e)
+			}
+			construct := fmt.Sprintf("%s#Parameter(%s)", c.RefName(f), name)
+			_, hasSchema := fields["Schema"]
+			_, hasContent := fields["Content"]
+			if hasSchema != hasContent {
+				c.Okf(rule, construct, "the parameter object carries a schema (or a content)")
+			} else {
+				c.Failf(rule, construct, cl.Pos(), "the OpenAPI 3 parameter object is built without schema and without content (or with both): the specification requires exactly one, validators reject the document")
+			}
+		}
+	}
+	c.Floor(rule, sites, 2, "Parameter literals of the OpenAPI 3 builder")
 }
